@@ -44,7 +44,7 @@ MUTATIONS = ['undeclared', 'redeclare-global', 'redeclare-proc', 'array-as-scala
              'long-string', 'array-len-0', 'array-len-negative', 'array-len-huge', 'big-literal', 'empty-file', 'no-main', 'label-like-names',
              'deep-parens', 'deep-if', 'long-seq', 'bad-syscall', 'syscall-no-args', 'syscall-many-args', 'return-in-proc', 'no-return',
              'high-bytes', 'local-array', 'duplicate-formal', 'main-with-formals', 'recursive-val', 'val-cycle', 'val-cycle-local',
-             'array-len-cycle', 'val-chain-long']
+             'array-len-cycle', 'val-chain-long', 'comment-eof', 'string-eof', 'char-eof', 'token-eof']
 
 
 def gen_source(r, want_mutation=None):
@@ -203,6 +203,11 @@ def apply(r, P, m, text):
         for q in P['procs']:
             if q['name'] == 'main':
                 q['formals'] = [('val', 'argc'), ('array', 'argv')]
+    if m in ('comment-eof', 'string-eof', 'char-eof', 'token-eof'):
+        t = xlang.p_prog(P).rstrip('\n')
+        tail = {'comment-eof': r.choice([' | trailing comment without newline', '|', '\n|x']), 'string-eof': r.choice(['\nproc q8() is q7("abc', ' "']),
+                'char-eof': r.choice(["\nproc q8() is 0('", " 'a", " '\\"]), 'token-eof': r.choice([' :', ' ~', ' <', ' #', ' proc', ' {', ' -'])}[m]
+        return P, t + tail
     if m == 'empty-file':
         return P, r.choice(['', '\n', '| just a comment', '   '])
     if m == 'high-bytes':
